@@ -1047,6 +1047,24 @@ def t4(prog, rep):
     tot = [e for e in ser.all_elems() if e.is_assign and norm(e.kid(0)) == ("*", ("v", ser.params[2]["name"], ser.params[2]["id"]))]
     ok = len(tot) == 1 and lin_terms(norm(tot[0].kid(1))) == (sum(b for a, b in nm(sseq) if isinstance(b, int)), ["namelen"])
     rep.check(ok, "T4-sockaddr", "serialised length is the sum of the copied sizes", ser.loc, "", function="sock_addr_serialize", construct="total")
+    # the decoder accepts exactly what the encoder produces: on its way to the success return the length it was given has been
+    # tested equal to the same sum, and no earlier test turns away a length the encoder can produce (header only, empty name)
+    hdr = sum(b for a, b in nm(sseq) if isinstance(b, int))
+    BL = ("v", des.params[1]["name"], des.params[1]["id"])
+    okret = [r for r in des.returns() if r.kids and norm(r.kid(0)) != ("c", 0)]
+    exact, low = False, []
+    for r in okret:
+        for cond, truth in des.edge_conds(r):
+            for op, L, R, _, _ in cond_atoms(cond, truth):
+                if L == BL and op == "==" and lin_terms(R) == (hdr, ["namelen"]):
+                    exact = True
+                if L == BL and op in (">=", ">") and R[0] == "c":
+                    low.append(R[1] + (1 if op == ">" else 0))
+                if L == BL and op == "==" and lin_terms(R) != (hdr, ["namelen"]):
+                    low.append(1 << 62)
+    rep.check(exact and bool(okret) and all(c <= hdr for c in low), "T4-sockaddr", "deserialize accepts exactly the length serialize produces", des.loc,
+              "serialize writes %d + namelen bytes; deserialize's success path requires: exact-length test with that sum: %s, minimum lengths: %s"
+              % (hdr, exact, sorted(set(low))), function=des.name, construct="length-agree")
     # dup and cmp
     dup = prog.func("util/sock_util.c", "sock_addr_dup")
     cmpf = prog.func("util/sock_util.c", "sock_addr_cmp")
@@ -1102,6 +1120,46 @@ def t4(prog, rep):
         okf = any(op == "!=" and colon(L) and R == ("c", 0) for op, L, R in a6) and any(op == "==" and colon(L) and R == ("c", 0) for op, L, R in a4)
     rep.check(okf, "T4-sockaddr", "a bracketed literal is IPv6 exactly when it contains ':'", r.loc, "", function="sock_resolve", construct="family")
     rep.check(last_colon and br == {"[", "]"}, "T4-sockaddr", "sock_resolve accepts [addr]:port split at the last colon", r.loc, "", function="sock_resolve", construct="resolve-form")
+    # a path (first character '/') goes to the Unix resolver and nothing else does
+    A0 = ("v", r.params[0]["name"], r.params[0]["id"])
+
+    def slash(f, e, want):
+        return any(L in (("[]", A0, ("c", 0)), ("*", A0)) and R == ("c", ord("/")) and op == ("==" if want else "!=")
+                   for cond, truth in f.edge_conds(e) for op, L, R, _, _ in cond_atoms(cond, truth))
+    ux = list(r.calls("sock_resolve_unix"))
+    others = v4 + v6 + list(r.calls("sock_resolve_host"))
+    rep.check(len(ux) == 1 and slash(r, ux[0], True) and others and all(slash(r, c, False) for c in others), "T4-sockaddr",
+              "an address is a Unix path exactly when it starts with '/'", r.loc,
+              "sock_resolve_unix must be reached only under addr[0] == '/', the other resolvers only under addr[0] != '/'", function="sock_resolve", construct="unix-path")
+    # a numeric literal that inet_pton accepts (answer 1) is the address; any other answer fails the resolution
+    su = prog.unit("util/sock.c")
+    npt = 0
+    for f in su.funcs:
+        if f.file != "util/sock.c":
+            continue
+        for c in f.calls("inet_pton"):
+            npt += 1
+            ok = False
+            for b in f.blocks.values():
+                if b.cond is None or len(b.succs) != 2:
+                    continue
+                for truth, sx in ((True, b.succs[0]), (False, b.succs[1])):
+                    for op, L, R, Le, _ in cond_atoms(b.cond, truth):
+                        if Le is not None and Le.strip() is c and R == ("c", 1) and op in ("==", "!="):
+                            vals, _ = f.returns_from(sx)
+                            if op == "==":
+                                ok_edge = any(v is not None and v != ("c", 0) for v in vals)
+                            else:
+                                ok_edge = bool(vals) and all(v == ("c", 0) for v in vals)
+                            ok = ok_edge if not ok else ok and ok_edge
+                            if not ok_edge:
+                                ok = False
+                                break
+            rep.check(ok, "T4-sockaddr", "%s: the literal is the address exactly when inet_pton answers 1" % f.name, c.where,
+                      "the edge on which inet_pton did not answer 1 must lead only to the NULL return, the edge on which it did must reach the result",
+                      function=f.name, construct="pton-result")
+    if npt < 2:
+        rep.defer_broken("T4: fewer than 2 inet_pton calls found in sock.c")
 
 
 def lin_terms(n):
@@ -1156,6 +1214,9 @@ def run(tier):
         t3_escape(prog, rep)
         t3_unicode(prog, rep)
         t3_tables(prog, rep)
+        from . import c14
+        c14.leak_rules(prog, rep, only_files=("util/sock.c", "util/sock_util.c", "util/b64encode.c", "util/hexify.c", "util/json.c"))
+        c14.reported_rule(prog, rep, only_files=("util/sock.c", "util/sock_util.c"))
     rep.require_min("T1-endian", 12)
     rep.require_min("T3-sepws", 5)
     rep.require_min("T4-sockaddr", 8)
